@@ -35,10 +35,10 @@ _ALL = {
     "C10": {"suites": ["n-world"], "assumptions": ["max_clients is not lowered at run time for the bound"]},
     "C11": {"suites": ["r-server", "r-hostile"], "assumptions": [MISUSE]},
     "C12": {"suites": ["r-server", "r-pair", "r-hostile"], "assumptions": [MISUSE]},
-    "C13": {"suites": ["r-codec", "r-pair", "r-server", "n-codec", "n-world"], "assumptions": [COUNTERS]},
+    "C13": {"suites": ["r-codec", "r-pair", "r-hostile", "r-server", "n-codec", "n-world"], "assumptions": [COUNTERS]},
     "C14": {"suites": ["r-pair", "r-server"], "assumptions": [MISUSE]},
     "C15": {"suites": ["r-pair", "r-server"], "assumptions": [HONEST]},
-    "C16": {"suites": ["r-codec", "r-pair", "n-codec"], "assumptions": [COUNTERS]},
+    "C16": {"suites": ["r-codec", "r-pair", "r-hostile", "n-codec"], "assumptions": [COUNTERS]},
     "C17": {"suites": ["n-codec", "n-world"], "assumptions": [NOFORGE, "distinct tokens carry distinct keys (random 256-bit values)", "one connection attempt per token"]},
     "C18": {"suites": ["n-world"], "assumptions": ["the network eventually delivers: stated as explicit good rounds"]},
     "C19": {"suites": ["n-world", "n-codec"], "assumptions": []},
